@@ -54,7 +54,7 @@ impl Check for C12 {
         "C12"
     }
     fn gens(&self) -> Vec<GenSpec> {
-        vec![GenSpec { name: "for", quick: 6000, thorough: 300_000 }]
+        vec![GenSpec { name: "for", quick: 18_000, thorough: 600_000 }]
     }
     fn rule(&self) -> &'static str {
         "Programs `|a, b| { prefix, for x in coll { body }, suffix }`: collections of 0-5 terms passed as an LTerm list or as a Vec<LTerm> (constants, duplicates, the variables a and b, a query variable, lists holding a), prefixes that bind a and b differently in several states (conde, member) so that the SAME for goal object is solved from more than one state, bodies of 1-2 clauses built from x == k, member(x, ..) (several answers), x != k, conde, q1 == [x], q0 == x, infd; optional suffix. Each program is compared, as a multiset of ground-instance sets, with the same program where the for goal is replaced by the explicit conjunction of body[x := c] over the elements (real vs real) and with the reference interpreter; an empty collection must behave exactly like `true`. Distinct = distinct program text; non-trivial = at least 1 element and at least one answer."
@@ -64,8 +64,8 @@ impl Check for C12 {
     }
     fn floor(&self, tier: Tier) -> u64 {
         match tier {
-            Tier::Quick => 1500,
-            Tier::Thorough => 60_000,
+            Tier::Quick => 3500,
+            Tier::Thorough => 100_000,
         }
     }
     fn required_counters(&self) -> Vec<&'static str> {
